@@ -53,10 +53,9 @@ class NetExecutor(TraceExecutor):
         return self.NODE_ID
 
     def unused_physical(self):
-        k = 0
-        while k in self._used_physical_qubit_addresses:
-            k += 1
-        return k
+        """the physical qubit a link layer picks for the next pair: through the executor's own helper, whose contract is to return an
+        unused qubit AND reserve it (a response that is still waiting to be mapped must not lose its qubit to the next one)"""
+        return self._get_unused_physical_qubit()
 
     def deliver_next(self):
         if not self.deliveries:
